@@ -434,7 +434,7 @@ static void c05_phase(int G, int k, double penCells, bool dirs) {
                 // unrestricted optimum <= cost <= optimum over restricted Hanan-grid paths (when one exists)
                 OrthoGrid og2(G, rs); double lb = og2.best(fr[a].x, fr[a].y, fr[b].x, fr[b].y, penCells, 15, 15, 2);
                 if (cost < lb - 1e-6) ctx.violation("cheaper_than_possible", {}, desc, mcx::fmt("route cost %.9g unrestricted optimum %.9g route ", cost, lb) + route_str(c->route()));
-                else if (o < 1e17 && cost > o + 1e-6) ctx.violation("costlier_than_optimal", {faces(fr[a], dl[da]) && da && db ? "both_ends_restricted_and_source_faces_a_shape" : doubles_back(c->route()) ? "direction_restricted_route_doubles_back" : "direction_restricted_point_other"}, desc, mcx::fmt("route cost %.9g restricted Hanan optimum %.9g route ", cost, o) + route_str(c->route()));
+                else if (o < 1e17 && cost > o + 1e-6) ctx.violation("costlier_than_optimal", {faces(fr[a], dl[da]) && da && db ? "both_ends_restricted_and_source_faces_a_shape" : k >= 2 ? (doubles_back(c->route()) ? "direction_restricted_two_rectangles_route_doubles_back" : "direction_restricted_two_rectangles") : "direction_restricted_point_other"}, desc, mcx::fmt("route cost %.9g restricted Hanan optimum %.9g route ", cost, o) + route_str(c->route()));
                 if (cost < o - 1e-6) ctx.count("restriction_not_honoured_or_no_restricted_path");
             }
             ctx.cls("cost_minus_length_in_bends", mcx::fmt("%d", (int)lround((cost - (fabs((double)fr[a].x - fr[b].x) + fabs((double)fr[a].y - fr[b].y))) / max(penCells, 1e-9))));
@@ -505,7 +505,7 @@ int main(int argc, char **argv) {
     } else if (PROP == "C05") {
         c05_bends(T ? 4 : 2);
         for (double pen : {0.5, 1.0, 2.0, 3.0, 10.0}) { c05_phase(4, 1, pen, false); c05_phase(4, 2, pen, false); }   // 1 and 3 cells: exact ties between "one more bend" and "k more cells"
-        c05_phase(3, 1, 2, true); c05_phase(4, 1, 2, true); c05_phase(4, 2, 2, true);
+        c05_phase(3, 1, 2, true); c05_phase(4, 1, 2, true); c05_phase(4, 2, 2, true); c05_phase(4, 3, 2, false); c05_phase(4, 3, 1, false);
         if (T) { for (double pen : {0.5, 1.0, 2.0, 10.0}) c05_phase(5, 2, pen, false); c05_phase(5, 3, 2, false); c05_phase(4, 2, 0.5, true); }
     } else { fprintf(stderr, "need --prop C03|C04|C05\n"); return 3; }
     return ctx.finish();
